@@ -263,8 +263,12 @@ func (w *World) randomStep(rng *rand.Rand) Step {
 		cand{Step{A: "block", Nb: csv, Incl: true}, 1}, cand{Step{A: "tick"}, 2})
 	for _, n := range []string{"A", "B"} {
 		cs = append(cs, cand{Step{A: "restart", N: n}, 1})
-		if w.up(n) && len(w.Slot[n].node.mgr.live()) > 0 {
-			cs = append(cs, cand{Step{A: "retx", N: n}, 2})
+		if w.up(n) { // a retransmission tick (changes nothing unless a retransmitter is alive)
+			wt := 1
+			if len(w.Slot[n].node.mgr.live()) > 0 {
+				wt = 3
+			}
+			cs = append(cs, cand{Step{A: "retx", N: n}, wt})
 		}
 	}
 	if st, _ := w.LN.truth("claim"); st == "inflight" {
